@@ -121,6 +121,25 @@ Fixpoint guard_or (c : raw_content) : bool :=
 
 Definition dtd_guard (c : raw_content) : bool := guard_seq c && guard_or c.
 
+(* clause 4 (compound fields only): no sequence group below a choice that is not itself repeated.
+   The mapper gives every element below an OR node the same choice id and no path, so
+   CreateCompoundFields folds them into ONE one-item compound field. *)
+Fixpoint no_seq (c : raw_content) : bool :=
+  match c with
+  | RC _ t _ l r =>
+      negb (str_eqb t S_seq) && match l with Some x => no_seq x | None => true end
+      && match r with Some x => no_seq x | None => true end
+  end.
+
+Fixpoint guard_orseq (c : raw_content) : bool :=
+  match c with
+  | RC _ t o l r =>
+      if str_eqb t S_or && occur_bounded o then
+        match l with Some x => no_seq x | None => true end && match r with Some x => no_seq x | None => true end
+      else
+        match l with Some x => guard_orseq x | None => true end && match r with Some x => guard_orseq x | None => true end
+  end.
+
 (* clause 3: no element is in a namespace: no prefixed element name, no default xmlns declaration
    (prefix declarations used by attributes only are fine) *)
 Definition is_default_xmlns (a : raw_attr) : bool :=
@@ -190,7 +209,8 @@ Definition class_flags (c : eclass) : list bool :=
     order_safe m (ec_meta c);                                         (* 5 proved order condition *)
     rep_confined m;                                                   (* 6 the property's side condition *)
     cm_wf m;                                                          (* 7 *)
-    amp_default c ].                                                  (* 8 a declared default / fixed value contains "&" *)
+    amp_default c;                                                    (* 8 a declared default / fixed value contains "&" *)
+    match ec_raw c with Some r => guard_orseq r | None => true end ].  (* 9 guard clause 4 (compound fields) *)
 
 Definition rejected_of (c : eclass) : option (list name) :=
   match ec_ctype c with CElems m | CMixed m => rejected_word m (ec_meta c) | _ => None end.
@@ -424,6 +444,20 @@ Fixpoint node_has_amp_class (fuel : nat) (cs : list eclass) (n : xnode) : bool :
   end.
 Definition doc_has_amp_class (pd : program * doc) : bool :=
   let (p, d) := pd in node_has_amp_class (fuel_of d) (p_classes p) (d_in d).
+
+(* indices of the classes whose instances occur in the document *)
+Fixpoint node_class_idx (fuel : nat) (cs : list eclass) (n : xnode) : list nat :=
+  match fuel with
+  | O => []
+  | S f =>
+      match n with
+      | XText _ => []
+      | XElem q _ kids =>
+          (match index_class cs q 0 with Some i => [i] | None => [] end) ++ concat (map (node_class_idx f cs) kids)
+      end
+  end.
+Definition doc_class_idx (pd : program * doc) : list nat :=
+  let (p, d) := pd in nodup Nat.eq_dec (node_class_idx (fuel_of d) (p_classes p) (d_in d)).
 
 Definition doc_rejecting (pd : program * doc) : list (nat * nat) :=
   let (p, d) := pd in rejecting (fuel_of d) (p_classes p) (d_in d).
